@@ -43,6 +43,67 @@ theorem specFields_cons (senv : SEnv) (f : Nat) (n : String) (t : SType) (rest :
       | _, _ => none) := rfl
 
 /-- more fuel never changes a result of the spec encoder -/
+theorem mapMOpt_mono {α β} (f g : α → Option β) : ∀ (l : List α) (r : List β),
+    (∀ a ∈ l, ∀ b, f a = some b → g a = some b) → mapMOpt f l = some r → mapMOpt g l = some r
+  | [], r, _, h => by simpa [mapMOpt] using h
+  | a :: as, r, hon, h => by
+    simp only [mapMOpt] at h ⊢
+    cases h1 : f a with
+    | none => simp [h1] at h
+    | some b =>
+      cases h2 : mapMOpt f as with
+      | none => simp [h1, h2] at h
+      | some bs =>
+        rw [hon a (List.mem_cons_self ..) b h1,
+          mapMOpt_mono f g as bs (fun a' ha' => hon a' (List.mem_cons_of_mem _ ha')) h2]
+        simpa [h1, h2] using h
+
+theorem specCodec_mono (vf vf' : Val → Option Chunk) (x : Val) (hv : ∀ c, vf x = some c → vf' x = some c)
+    (c : Chunk) (h : (specCodec vf).enc x = .ok c) : (specCodec vf').enc x = .ok c := by
+  simp only [specCodec] at h ⊢
+  cases h1 : vf x with
+  | none => simp [h1] at h
+  | some c' =>
+    rw [h1] at h
+    rw [hv c' h1]
+    exact h
+
+theorem keyBits_mono (n : Nat) (o o' : Option Chunk) (h : ∀ c, o = some c → o' = some c) (kb : Hashmap.Key)
+    (hk : keyBits n o = some kb) : keyBits n o' = some kb := by
+  cases o with
+  | none => simp [keyBits] at hk
+  | some c => rw [h c rfl]; exact hk
+
+theorem specDict_mono (n : Nat) (kf kf' vf vf' : Val → Option Chunk) (v : Val) (c : Chunk)
+    (hk : ∀ x c, kf x = some c → kf' x = some c) (hv : ∀ x c, vf x = some c → vf' x = some c)
+    (h : specDict n kf vf v = some c) : specDict n kf' vf' v = some c := by
+  unfold specDict at h ⊢
+  cases hp : dictParts v with
+  | none => simp [hp] at h
+  | some p =>
+    obtain ⟨ks, vs⟩ := p
+    simp only [hp] at h ⊢
+    split at h
+    · rename_i he; rw [if_pos he]; exact h
+    · rename_i he; rw [if_neg he]
+      cases hm : mapMOpt (fun kv => keyBits n (kf kv)) ks with
+      | none => simp [hm] at h
+      | some kbits =>
+        rw [mapMOpt_mono _ (fun kv => keyBits n (kf' kv)) ks kbits
+          (fun a _ b hb => keyBits_mono n _ _ (hk a) b hb) hm]
+        simp only [hm] at h ⊢
+        cases hz : zipKV kbits vs with
+        | none => simp [hz] at h
+        | some kvs =>
+          simp only [hz] at h ⊢
+          cases hmar : Hashmap.marshal (specCodec vf) n kvs with
+          | ok root =>
+            rw [Hashmap.marshal_mono_on (specCodec vf) (specCodec vf') n kvs root
+              (fun kv _ c hc => specCodec_mono vf vf' kv.2 (hv kv.2) c hc) hmar]
+            simpa [hmar] using h
+          | err e => simp [hmar] at h
+          | panic e => simp [hmar] at h
+
 theorem spec_mono (senv : SEnv) : ∀ f : Nat,
     (∀ S v c, specChunk senv f S v = some c → specChunk senv (f + 1) S v = some c) ∧
     (∀ fs v c, specFields senv f fs v = some c → specFields senv (f + 1) fs v = some c)
@@ -109,6 +170,9 @@ theorem spec_mono (senv : SEnv) : ∀ f : Nat,
         split at h
         · rw [specChunk_goPtr]; exact ihC _ _ _ h
         · cases h
+      | hashmapE n sk st =>
+        simp only [specChunk] at h ⊢
+        exact specDict_mono n _ _ _ _ v c (fun x c hx => ihC _ _ _ hx) (fun x c hx => ihC _ _ _ hx) h
       | _ => simpa only [specChunk] using h
     · intro fs v c h
       cases fs with
@@ -324,15 +388,6 @@ theorem agree_bytes {f k n : Nat} {S v b b'} (ha : agreeb env senv (k + 1) (.byt
   simp only [encode, hd, ↓reduceIte, Builder.writeBytes] at he
   refine SpecOK.leaf ?_ (Builder.writeBits_ok he)
   simp [specChunk, hd, ha]
-
-theorem agree_dictE {f k : Nat} {id : String} {S v b b'} (ha : agreeb env senv (k + 1) (.dictE id) S = true)
-    (hd : inDom env (f + 1) (.dictE id) v = true) (he : encode env (f + 1) (.dictE id) v b = .ok b') :
-    SpecOK senv S v b b' := by
-  cases S <;> simp only [agreeb, Bool.false_eq_true] at ha
-  cases v <;> simp only [inDom, Bool.false_eq_true] at hd
-  simp only [encode, Builder.writeBit] at he
-  exact SpecOK.leaf (by simp [specChunk]) (Builder.writeBits_ok he)
-
 
 theorem app_bit_app (b : Builder) (x : Bool) (xs : List Bool) (rs : List Cell) :
     (b.app [x] []).app xs rs = b.app (x :: xs) rs := by
@@ -955,6 +1010,113 @@ theorem fields_spec {f k : Nat} (h : SInv env senv f) {fs sfs v b b'}
           specFields_mono (Nat.le_max_right g1 g2) hc2]
       · rw [hb2, hb1, Builder.app_app]; rfl
 
+theorem common_fuel {α} (P : Nat → α → Prop) (hmono : ∀ g g' a, g ≤ g' → P g a → P g' a) :
+    ∀ l : List α, (∀ a ∈ l, ∃ g, P g a) → ∃ G, ∀ a ∈ l, P G a
+  | [], _ => ⟨0, fun _ h => by simp at h⟩
+  | a :: as, h => by
+    obtain ⟨g1, h1⟩ := h a (List.mem_cons_self ..)
+    obtain ⟨g2, h2⟩ := common_fuel P hmono as (fun a' ha' => h a' (List.mem_cons_of_mem _ ha'))
+    refine ⟨max g1 g2, fun x hx => ?_⟩
+    rcases List.mem_cons.1 hx with rfl | hx
+    · exact hmono _ _ _ (Nat.le_max_left ..) h1
+    · exact hmono _ _ _ (Nat.le_max_right ..) (h2 x hx)
+
+theorem mapM_to_opt {α β} (f : α → Outcome β) (g : α → Option β) : ∀ (l : List α) (r : List β),
+    (∀ a ∈ l, ∀ b ∈ r, f a = .ok b → g a = some b) → mapMOutcome f l = .ok r → mapMOpt g l = some r
+  | [], r, _, h => by simp only [mapMOutcome] at h; cases h; rfl
+  | a :: as, r, hon, h => by
+    simp only [mapMOutcome] at h
+    obtain ⟨b, hb, h2⟩ := bind_ok_inv h
+    obtain ⟨bs, hbs, h3⟩ := bind_ok_inv h2
+    cases h3
+    have h1 := hon a (List.mem_cons_self ..) b (List.mem_cons_self ..) hb
+    have h2 := mapM_to_opt f g as bs
+      (fun a' ha' b' hb' => hon a' (List.mem_cons_of_mem _ ha') b' (List.mem_cons_of_mem _ hb')) hbs
+    simp only [mapMOpt, h1, h2]
+
+/-- a dictionary: the keys and the values are written as the schema says, and the tree around them is C05's -/
+theorem agree_dictE {f k : Nat} (h : SInv env senv f) {kt t S v b b'}
+    (ha : agreeb env senv (k + 1) (.dictE kt t) S = true)
+    (hd : inDom env (f + 1) (.dictE kt t) v = true) (he : encode env (f + 1) (.dictE kt t) v b = .ok b') :
+    SpecOK senv S v b b' := by
+  cases S <;> simp only [agreeb, Bool.false_eq_true] at ha
+  rename_i n sk st
+  simp only [Bool.and_eq_true, beq_iff_eq] at ha
+  obtain ⟨⟨hn, hak⟩, hat⟩ := ha
+  simp only [inDom, hn] at hd
+  simp only [encode, hn] at he
+  cases hp : dictParts v with
+  | none => simp [hp] at hd
+  | some p =>
+    obtain ⟨ks, vs⟩ := p
+    simp only [hp] at hd he
+    simp only [Bool.and_eq_true, beq_iff_eq, List.all_eq_true] at hd
+    obtain ⟨⟨⟨⟨⟨⟨hlen, hshape⟩, hkd⟩, hvd⟩, hkr⟩, hkb⟩, hvfit⟩ := hd
+    by_cases hemp : ks.isEmpty = true
+    · rw [if_pos hemp] at he
+      simp only [Builder.writeBit] at he
+      refine SpecOK.leaf ?_ (Builder.writeBits_ok he)
+      simp only [specChunk, specDict, hp, hemp, ↓reduceIte]
+    · rw [if_neg hemp] at he
+      obtain ⟨b1, hb1, he⟩ := bind_ok_inv he
+      simp only [Builder.writeBit] at hb1
+      have hb1 := Builder.writeBits_ok hb1
+      obtain ⟨kbits, hkb', he⟩ := bind_ok_inv he
+      rw [hkb'] at hkb
+      simp only [Bool.and_eq_true, List.all_eq_true, beq_iff_eq] at hkb
+      have hklen : kbits.length = vs.length := by rw [mapM_length _ _ _ hkb']; exact hlen
+      cases hz : zipKV kbits vs with
+      | none => rw [hz] at he; cases he
+      | some kvs =>
+        simp only [hz] at he
+        obtain ⟨root, hm, he⟩ := bind_ok_inv he
+        have hb' := Builder.addRef_ok he
+        obtain ⟨hk1, hk2⟩ := zipKV_spec kbits vs kvs hklen hz
+        -- one fuel for all keys and all values
+        obtain ⟨G1, hG1⟩ := common_fuel
+          (fun g kv => ∀ kb, encode env f kt kv Builder.empty = .ok kb → specChunk senv g sk kv = some (kb.bits, kb.refs))
+          (fun g g' a hgg hP kb hkb => specChunk_mono hgg (hP kb hkb)) ks (by
+            intro kv hkv
+            cases hek : encode env f kt kv Builder.empty with
+            | ok kb =>
+              obtain ⟨g, c, hc, hbb⟩ := h.enc k kt sk kv _ kb hak (hkd kv hkv) hek
+              refine ⟨g, fun kb' hkb' => ?_⟩
+              cases hkb'
+              rw [hc, hbb]; simp [Builder.app, Builder.empty]
+            | err e => exact ⟨0, fun kb' hkb' => by cases hkb'⟩
+            | panic e => exact ⟨0, fun kb' hkb' => by cases hkb'⟩)
+        obtain ⟨G2, hG2⟩ := common_fuel
+          (fun g x => ∀ vb, encode env f t x Builder.empty = .ok vb → specChunk senv g st x = some (vb.bits, vb.refs))
+          (fun g g' a hgg hP vb hvb => specChunk_mono hgg (hP vb hvb)) vs (by
+            intro x hx
+            cases hex : encode env f t x Builder.empty with
+            | ok vb =>
+              obtain ⟨g, c, hc, hbb⟩ := h.enc k t st x _ vb hat (hvd x hx) hex
+              refine ⟨g, fun vb' hvb' => ?_⟩
+              cases hvb'
+              rw [hc, hbb]; simp [Builder.app, Builder.empty]
+            | err e => exact ⟨0, fun vb' hvb' => by cases hvb'⟩
+            | panic e => exact ⟨0, fun vb' hvb' => by cases hvb'⟩)
+        refine ⟨max G1 G2 + 1, ([true], [root]), ?_, by rw [hb', hb1]; simp [Builder.app]⟩
+        have hkeys : mapMOpt (fun kv => keyBits n (specChunk senv (max G1 G2) sk kv)) ks = some kbits := by
+          refine mapM_to_opt _ _ ks kbits ?_ hkb'
+          intro kv hkv kb hkbm hkb2
+          obtain ⟨kbld, hkbld, hkb3⟩ := bind_ok_inv hkb2
+          cases hkb3
+          have hr := hkr kv hkv
+          rw [hkbld] at hr
+          rw [specChunk_mono (Nat.le_max_left G1 G2) (hG1 kv hkv kbld hkbld)]
+          simp only [keyBits, hkb.1 _ hkbm, hr, and_self, ↓reduceIte]
+        have hmar : Hashmap.marshal (specCodec fun x => specChunk senv (max G1 G2) st x) n kvs = .ok root := by
+          refine Hashmap.marshal_mono_on _ _ n kvs root ?_ hm
+          intro kv hkv c hc
+          have hx : kv.2 ∈ vs := by rw [← hk2]; exact List.mem_map_of_mem hkv
+          simp only [valueCodecEnc] at hc
+          obtain ⟨vb, hvb, hc⟩ := bind_ok_inv hc
+          cases hc
+          simp only [specCodec, specChunk_mono (Nat.le_max_right G1 G2) (hG2 kv.2 hx vb hvb)]
+        simp only [specChunk, specDict, hp, hemp, Bool.false_eq_true, ↓reduceIte, hkeys, hz, hmar]
+
 theorem SInv.succ {f : Nat} (h : SInv env senv f) : SInv env senv (f + 1) := by
   refine ⟨?_, ?_, ?_⟩
   · intro k T S v b b' ha hd he
@@ -975,7 +1137,7 @@ theorem SInv.succ {f : Nat} (h : SInv env senv f) : SInv env senv (f + 1) := by
     | eitherRef t => exact agree_eitherRef h ha hd he
     | refT t => exact agree_refT h ha hd he
     | prim p => exact agree_prim (by simpa [agreeb] using ha) hd he
-    | dictE id => exact agree_dictE ha hd he
+    | dictE kt t => exact agree_dictE h ha hd he
     | cell => simp [agreeb] at ha
     | magic t => simp [agreeb] at ha
     | vmStack e => simp [agreeb] at ha
